@@ -796,7 +796,7 @@ def c06_decision(ctx, p):
     elif mode == 'skip':
         # `skip` as a bare attribute at position pos among n attributes; condition satisfied; a ready child inside
         attrs = list(p['attrs'])
-        attrs.insert(p['pos'], 'skip')
+        attrs.insert(p['pos'], p.get('skip_as', 'skip'))   # bare, or written with a value (skip='true', skip="")
         sep = [ctx.bytes(f's{i}', 1, only=(32, 10)) for i in range(len(attrs))]
         tag = list(p['tag'].encode())
         src = list(b"A<") + tag
@@ -850,6 +850,9 @@ def c06_jobs(tier, seed):
         for n in range(1, 4):
             for pos in range(0, n + 1):
                 J(f'skip tag={tag} attrs={n} pos={pos}', mode='skip', tag=tag, attrs=base_attrs[tag][:n], pos=pos)
+        for sk in ("skip='true'", 'skip=""', 'skip = "1"'):
+            for pos in (0, 2):
+                J(f'skip written {sk} tag={tag} pos={pos}', mode='skip', tag=tag, attrs=base_attrs[tag][:2], pos=pos, skip_as=sk)
     for w in ('skip', 'unwrap-block', ' skip ', "skip='1'", ' unwrap-block'):
         for q in ("'", '"'):
             if q in w:
